@@ -45,6 +45,38 @@ type propCfg struct {
 
 var root = envOr("VERIF_ROOT", "/verif")
 
+// workDir holds build output and per-run scratch files (default <root>/.work).
+// repoDir is the library tree the harness is built against (default /repo, via
+// the replace directive of harness/go.mod); VERIF_REPO points the same harness
+// at a scratch copy instead (used only to try seeded changes without touching /repo).
+var (
+	workDir = envOr("VERIF_WORKDIR", filepath.Join(root, ".work"))
+	repoDir = os.Getenv("VERIF_REPO")
+)
+
+// altModfile writes a copy of harness/go.mod whose replace directive points to
+// repoDir and returns the -modfile argument ("" when the default /repo is used).
+func altModfile() (string, error) {
+	if repoDir == "" || repoDir == "/repo" {
+		return "", nil
+	}
+	src, err := os.ReadFile(filepath.Join(root, "harness", "go.mod"))
+	if err != nil {
+		return "", err
+	}
+	dir := filepath.Join(workDir, "altmod")
+	if err := os.MkdirAll(dir, 0o755); err != nil {
+		return "", err
+	}
+	mod := strings.Replace(string(src), "=> /repo", "=> "+repoDir, 1)
+	if err := os.WriteFile(filepath.Join(dir, "go.mod"), []byte(mod), 0o644); err != nil {
+		return "", err
+	}
+	sum, _ := os.ReadFile(filepath.Join(root, "harness", "go.sum"))
+	_ = os.WriteFile(filepath.Join(dir, "go.sum"), sum, 0o644)
+	return "-modfile=" + filepath.Join(dir, "go.mod"), nil
+}
+
 func envOr(k, d string) string {
 	if v := os.Getenv(k); v != "" {
 		return v
@@ -148,9 +180,16 @@ func setup() int {
 }
 
 func build(p propCfg) (string, error) {
-	bin := filepath.Join(root, ".work", "bin", p.ID+".test")
+	bin := filepath.Join(workDir, "bin", p.ID+".test")
 	_ = os.MkdirAll(filepath.Dir(bin), 0o755)
 	args := []string{"test", "-c", "-vet=off", "-o", bin}
+	mf, err := altModfile()
+	if err != nil {
+		return "", err
+	}
+	if mf != "" {
+		args = append(args, mf)
+	}
 	if p.Race {
 		args = append(args, "-race")
 	}
@@ -260,7 +299,7 @@ func runProp(p propCfg, tier, replay string) int {
 		return 2
 	}
 
-	work := filepath.Join(root, ".work", "out", p.ID)
+	work := filepath.Join(workDir, "out", p.ID)
 	_ = os.RemoveAll(work)
 	_ = os.MkdirAll(work, 0o755)
 
@@ -598,11 +637,15 @@ func indent(s string) string {
 // violation whose replay file is the saved corpus entry.
 func runFuzz(p propCfg, target, work string) (string, *violation) {
 	pkgDir := filepath.Join(root, "harness", p.Pkg)
-	cache := filepath.Join(root, ".work", "fuzzcache", p.ID)
+	cache := filepath.Join(workDir, "fuzzcache", p.ID)
 	_ = os.MkdirAll(cache, 0o755)
 	before := listFiles(filepath.Join(pkgDir, "testdata", "fuzz", target))
 	args := []string{"test", "-vet=off", "-run=^$", "-fuzz=^" + target + "$", "-fuzztime=" + p.FuzzTime.String(),
-		"-test.fuzzcachedir=" + cache, "./" + p.Pkg}
+		"-test.fuzzcachedir=" + cache}
+	if mf, _ := altModfile(); mf != "" {
+		args = append(args, mf)
+	}
+	args = append(args, "./"+p.Pkg)
 	cmd := exec.Command("go", args...)
 	cmd.Dir = filepath.Join(root, "harness")
 	cmd.Env = append(goEnv(), "VERIF_TIER=thorough")
